@@ -1,5 +1,346 @@
-import RSVerif.Basic
-/- C02: line-protocol driver (stub) -/
+import RSVerif.Model.Restore
+import RSVerif.Model.RdbDecode
+/-
+C02 line protocol (see go/harness/c02.go for the case syntax).
+  cmpver <a> <b> <level>     -> CompareVersion result, or `panic`
+  r <cfg> pre=.. | entry ..  -> R=<results> T=<trace> F=<flush sizes> KS=<keyspace> S=<scripts>  SPEC=<R>:<KS>|n/a  FIND=<sig|->
+The first four fields are the model of the (repaired) code; SPEC is what the one-command specification
+`RestoreEntry.specOutcome` predicts (the definitions the theorems of Properties/C02 are about), printed whenever the
+hypotheses of those theorems hold for the case; FIND names the known finding whose excluded condition the case meets.
+-/
 namespace RSVerif.Drive.C02
-def handle (_line : String) : String := "unimplemented"
+open RSVerif RSVerif.Rdb RSVerif.Spec.MiniRedisC02 RSVerif.RestoreEntry
+
+/-! ### float codec of the driver: integers below 2^53 and a table checked against strconv by the harness -/
+
+def floatTable : List (String × UInt64) := [
+  ("0.5", 0x3FE0000000000000), ("-2.5", 0xC004000000000000), ("3.14159", 0x400921F9F01B866E),
+  ("0.00000015", 0x3E8421F5F40D8376), ("0.1", 0x3FB999999999999A), ("12345678.5", 0x41678C29D0000000),
+  ("+Inf", 0x7FF0000000000000), ("-Inf", 0xFFF0000000000000), ("1000000000000000000000", 0x444B1AE4D6E2EF50),
+  ("0.25", 0x3FD0000000000000), ("-0.001", 0xBF50624DD2F1A9FC), ("0.0000001", 0x3E7AD7F29ABCAF48),
+  ("25000000000.5", 0x42174876E8020000), ("NaN", 0x7FF8000000000001),
+  -- parse-only spellings
+  ("1e10", 0x4202A05F20000000), ("1E5", 0x40F86A0000000000), ("4.25e+2", 0x407A900000000000),
+  ("inf", 0x7FF0000000000000), ("-inf", 0xFFF0000000000000), ("+inf", 0x7FF0000000000000),
+  ("5e-1", 0x3FE0000000000000), ("0.50", 0x3FE0000000000000), ("-2.50", 0xC004000000000000),
+  ("1e21", 0x444B1AE4D6E2EF50), ("Infinity", 0x7FF0000000000000)]
+
+def intBits (neg : Bool) (n : Nat) : UInt64 :=
+  if n = 0 then (if neg then 0x8000000000000000 else 0)
+  else
+    let e := Nat.log2 n
+    let mant := (n * 2 ^ (52 - e)) % 2 ^ 52
+    UInt64.ofNat ((if neg then 2 ^ 63 else 0) + (1023 + e) * 2 ^ 52 + mant)
+
+def parseDigits (ds : Bytes) : Option Nat :=
+  if ds.isEmpty then none
+  else ds.foldl (fun acc b => match acc, digitVal b with
+    | some a, some d => some (a * 10 + d) | _, _ => none) (some 0)
+
+def drvParse (t : Bytes) : Option UInt64 :=
+  let (neg, ds) : Bool × Bytes := match t with
+    | 43 :: r => (false, r)
+    | 45 :: r => (true, r)
+    | r => (false, r)
+  let tab := (floatTable.find? fun p => p.1.toUTF8.toList == t).map (·.2)
+  match parseDigits ds with
+  | some n => if n < 2 ^ 53 then some (intBits neg n) else tab
+  | none => tab
+
+def drvFmt (b : UInt64) : Bytes :=
+  let neg := b >>> 63 == 1
+  let ex := ((b >>> 52) &&& 0x7ff).toNat
+  let mant := (b &&& 0xfffffffffffff).toNat
+  let sign : Bytes := if neg then [45] else []
+  if ex = 0 ∧ mant = 0 then sign ++ [48]
+  else if ex = 0x7ff then (if mant = 0 then (if neg then "-Inf" else "+Inf").toUTF8.toList else "NaN".toUTF8.toList)
+  else
+    let m := 2 ^ 52 + mant
+    if 1023 ≤ ex ∧ ex ≤ 1075 ∧ m % 2 ^ (1075 - ex) = 0 then sign ++ Rdb.fmtNat (m / 2 ^ (1075 - ex))
+    else match floatTable.find? fun p => p.2 == b with
+      | some p => p.1.toUTF8.toList
+      | none => "?".toUTF8.toList
+
+def drvFt : FloatText := { parse := drvParse, fmt := drvFmt }
+
+/-! ### compact encodings through the ziplist / intset readers of Model/RdbDecode (pkg/rdb/reader.go carries
+    the same code as the cupcake decoder); the intset walk is utils.go's own. Zipmap (type 9) is left unexpanded
+    (deviation D22 is C12's). -/
+
+def pairUp : List Bytes → List (Bytes × Bytes)
+  | a :: b :: r => (a, b) :: pairUp r
+  | _ => []
+
+/-- the readable prefix of `n` pairs of ziplist entries whose second component passes `ok` -/
+def zlPairs (ok : Bytes → Bool) : Nat → Bytes → List (Bytes × Bytes) × Bool
+  | 0, _ => ([], true)
+  | n + 1, buf =>
+    match RdbDecode.zlEntry buf with
+    | .error _ => ([], false)
+    | .ok (a, r1) =>
+      match RdbDecode.zlEntry r1 with
+      | .error _ => ([], false)
+      | .ok (b, r2) =>
+        if ok b then let (xs, c) := zlPairs ok n r2; ((a, b) :: xs, c) else ([], false)
+
+/-- the readable prefix of `n` little-endian integers of `sz` bytes, as decimal texts -/
+def intsetElems (sz : Nat) : Nat → Bytes → List Bytes × Bool
+  | 0, _ => ([], true)
+  | n + 1, buf =>
+    if buf.length < sz then ([], false)
+    else let (xs, c) := intsetElems sz n (buf.drop sz); (fmtInt (signed (8 * sz) (leNat (buf.take sz))) :: xs, c)
+
+def drvExpand (t : UInt8) (blob : Bytes) : Option Expansion :=
+  match t.toNat with
+  | 10 =>
+    match RdbDecode.zlLength blob with
+    | .error _ => none
+    | .ok (n, buf) => let (xs, e) := RdbDecode.zlEntries n buf; some ⟨n, .list xs, e.isNone⟩
+  | 13 =>
+    match RdbDecode.zlLength blob with
+    | .error _ => none
+    | .ok (n, buf) => let (xs, c) := zlPairs (fun _ => true) (n / 2) buf; some ⟨n / 2, .hash xs, c⟩
+  | 12 =>
+    -- member, score text; `strconv.ParseFloat(scoreBytes)` must succeed before the ZADD is written
+    match RdbDecode.zlLength blob with
+    | .error _ => none
+    | .ok (n, buf) =>
+      let (xs, c) := zlPairs (fun st => (drvParse st).isSome) (n / 2) buf
+      some ⟨n / 2, .zsetText xs, c⟩
+  | 11 =>
+    -- utils.go reads the intset itself: 4 bytes element size (2/4/8), 4 bytes cardinality, the elements
+    if blob.length < 4 then none
+    else
+      let sz := leNat (blob.take 4)
+      if sz ≠ 2 ∧ sz ≠ 4 ∧ sz ≠ 8 then none
+      else if blob.length < 8 then none
+      else
+        let card := leNat ((blob.drop 4).take 4)
+        let (xs, c) := intsetElems sz card (blob.drop 8)
+        some ⟨card, .set xs, c⟩
+  | _ => none
+
+def drvParams : Params := { expand := drvExpand, ft := drvFt }
+
+/-! ### parsing the case -/
+
+def kvOf (tok : String) : String × String :=
+  match tok.splitOn "=" with
+  | k :: rest => (k, "=".intercalate rest)
+  | [] => ("", "")
+
+def look (kvs : List (String × String)) (k : String) : String :=
+  match kvs.find? (·.1 == k) with
+  | some p => p.2
+  | none => ""
+
+def hexD (s : String) : Bytes := (ofHex s).getD []
+
+def natD (s : String) : Nat := s.toNat?.getD 0
+
+def intD (s : String) : Int := s.toInt?.getD 0
+
+def hexNat (s : String) : Nat :=
+  s.toList.foldl (fun acc c => acc * 16 + (hexVal c).getD 0) 0
+
+def splitNE (s : String) (sep : String) : List String := if s.isEmpty then [] else s.splitOn sep
+
+def parseVal (s : String) : Option LValue :=
+  if s == "none" then none
+  else
+    let body := (s.drop 2).toString
+    match s.toList.head? with
+    | some 's' => some (.str (hexD body))
+    | some 'o' => some (.opaque (hexD body))
+    | some 'l' => some (.list ((splitNE body ",").map hexD))
+    | some 'S' => some (.set ((splitNE body ",").map hexD))
+    | some 'h' => some (.hash ((splitNE body ",").map fun x =>
+        match x.splitOn "=" with | [a, b] => (hexD a, hexD b) | _ => ([], [])))
+    | some 'z' => some (.zset ((splitNE body ",").map fun x =>
+        match x.splitOn "=" with | [a, b] => (hexD a, UInt64.ofNat (hexNat b)) | _ => ([], 0)))
+    | _ => none
+
+def hex16 (x : UInt64) : String := toHex (le64 x).reverse
+
+def showArg (v : Bytes) : String :=
+  if v.length ≤ 40 then hexOrDash v else s!"{v.length}:{hex16 (Spec.Crc64.update 1 v)}"
+
+def showVal : LValue → String
+  | .str b => "s:" ++ showArg b
+  | .opaque b => "o:" ++ showArg b
+  | .list xs => "l:" ++ ",".intercalate (xs.map hexOrDash)
+  | .set xs => "S:" ++ ",".intercalate (xs.map hexOrDash)
+  | .hash fvs => "h:" ++ ",".intercalate (fvs.map fun p => hexOrDash p.1 ++ "=" ++ hexOrDash p.2)
+  | .zset ms => "z:" ++ ",".intercalate (ms.map fun p => hexOrDash p.1 ++ "=" ++ hex16 p.2)
+
+def showCmd (c : Cmd) : String :=
+  match c.render with
+  | [] => ""
+  | name :: args => ",".intercalate (String.fromUTF8! (ByteArray.mk name.toArray) :: args.map showArg)
+
+def bytesLt : Bytes → Bytes → Bool
+  | [], [] => false
+  | [], _ :: _ => true
+  | _ :: _, [] => false
+  | a :: r, b :: s => if a < b then true else if b < a then false else bytesLt r s
+
+def insertSorted (k : Bytes) : List Bytes → List Bytes
+  | [] => [k]
+  | x :: r => if k == x then x :: r else if bytesLt k x then k :: x :: r else x :: insertSorted k r
+
+def dash (s : String) : String := if s.isEmpty then "-" else s
+
+def showKs (t : Target) (keys : List Bytes) : String :=
+  dash (";".intercalate (keys.filterMap fun k =>
+    match t.get k with
+    | none => none
+    | some (v, exp) =>
+      let ttl := match exp with | none => "none" | some x => toString ((x : Int) - (t.srv.now : Int))
+      some s!"{hexOrDash k}={showVal v}@{ttl}"))
+
+def resName : Result → String
+  | .ok => "ok" | .error => "error" | .abort => "abort" | .hang => "hang"
+
+def srvT0 : Nat := 1000000
+def toolNowNs : Nat := 1800000000000000000
+
+structure DEntry where
+  gap : Nat
+  e : Entry
+  expOff : Option Int
+
+def parseEntry (cfg : Cfg) (toks : List String) : DEntry :=
+  let kvs := toks.map kvOf
+  let exp := look kvs "exp"
+  let off : Option Int := if exp == "none" then none else some (intD exp)
+  let expireAt : Nat := match off with
+    | none => 0
+    | some o => ((shiftedNowMs toolNowNs cfg.shiftNs : Int) + o).toNat
+  { gap := natD (look kvs "gap"),
+    expOff := off,
+    e := { db := 0, key := hexD (look kvs "key"), type := UInt8.ofNat (natD (look kvs "type")),
+           value := hexD (look kvs "val"), expireAt := expireAt, realMemberCount := natD (look kvs "rmc"),
+           needReadLen := natD (look kvs "nrl"), idle := natD (look kvs "idle"), freq := natD (look kvs "freq") } }
+
+def splitGroups (toks : List String) : List (List String) :=
+  toks.foldr (fun t acc => if t == "|" then [] :: acc else match acc with
+    | [] => [[t]]
+    | g :: gs => (t :: g) :: gs) [[]]
+
+def trailerOkDrv (d : Bytes) : Bool :=
+  match Dump.checkVersionChecksum d with
+  | .ok _ => true
+  | .error _ => false
+
+/-! ### the specification's prediction -/
+
+/-- all hash pairs of a chunk sequence, if every chunk is readable to the end -/
+def chunkPairs (P : Params) : List Entry → Option (List (Bytes × Bytes))
+  | [] => some []
+  | e :: rest =>
+    match e.value with
+    | ty :: inp =>
+      if ty = 4 then
+        match expansion P ty e.needReadLen e.realMemberCount inp with
+        | some ⟨_, .hash fvs, true⟩ => (chunkPairs P rest).map (fvs ++ ·)
+        | _ => none
+      else none
+    | [] => none
+
+def isEmptyValue : LValue → Bool
+  | .list [] => true | .set [] => true | .hash [] => true | .zset [] => true
+  | _ => false
+
+/-- some element of the payload carries a NaN score (the element-wise routes abort on it) -/
+def rawNaN (P : Params) (payload : Bytes) : Bool :=
+  match payload with
+  | ty :: inp =>
+    match expansion P ty 1 0 inp with
+    | some ⟨_, .zset ms, _⟩ => ms.any fun p => isNaN p.2
+    | some ⟨_, .zsetText ms, _⟩ => ms.any fun p => match P.ft.parse p.2 with | some sc => isNaN sc | none => true
+    | _ => false
+  | [] => false
+
+def handleRestore (toks : List String) : String :=
+  match splitGroups toks with
+  | [] => "badcase"
+  | cfgToks :: entToks =>
+    let kvs := cfgToks.map kvOf
+    let pol : Policy := match look kvs "pol" with | "r" => .rewrite | "i" => .ignore | _ => .none
+    let cfg : Cfg := { keyExists := pol, targetReplace := look kvs "rep" == "1", bigKeyThreshold := natD (look kvs "thr"),
+                       targetVersion := hexD (look kvs "ver"), shiftNs := intD (look kvs "shift"),
+                       replaceHashTag := look kvs "tag" == "1", ucloud := look kvs "uc" == "1",
+                       filterLua := look kvs "flua" == "1" }
+    let rej := hexD (look kvs "rej")
+    let pre : List (Bytes × Binding) := if look kvs "pre" == "-" then [] else
+      (look kvs "pre").splitOn ";" |>.filterMap fun p =>
+        match p.splitOn "/" with
+        | [k, v, ttl] => (parseVal v).map fun lv => (hexD k, (lv, if ttl == "none" then none else some (srvT0 + natD ttl)))
+        | _ => none
+    let ks0 : Keyspace := pre.foldl (fun ks p => ks.put 0 p.1 (some p.2)) Keyspace.empty
+    let srv : Server := { now := srvT0, trailerOk := trailerOkDrv, accepts := fun t => !rej.contains t,
+                          load := logicalPayload drvParams, busyOld := look kvs "busyold" == "1", ft := drvFt }
+    let t0 : Target := { srv := srv, db := 0, store := { ks := ks0, scripts := [] } }
+    let ents := entToks.map (parseEntry cfg)
+    -- run the model entry by entry
+    let step (acc : Target × List String × List String × List String × Bool) (d : DEntry) :
+        Target × List String × List String × List String × Bool :=
+      let (t, rs, trs, fls, stop) := acc
+      if stop then acc
+      else
+        let t1 := t.advance (t.srv.now + d.gap)
+        let (t2, r, _) := restoreRdbEntry drvParams cfg toolNowNs d.e t1
+        (t2, rs ++ [resName r], trs ++ [";".intercalate (t2.log.map showCmd)],
+         fls ++ [",".intercalate (t2.flog.map toString)], r != .ok)
+    let (tf, rs, trs, fls, _) := ents.foldl step (t0, [], [], [], false)
+    let keys := (pre.map (·.1) ++ ents.filterMap fun d => rewriteKey cfg d.e.key).foldl (fun acc k => insertSorted k acc) []
+    let scripts := dash (",".intercalate (tf.store.scripts.map showArg))
+    let modelPart := s!"R={",".intercalate rs} T={dash ("/".intercalate trs)} F={dash ("/".intercalate fls)} KS={showKs tf keys} S={scripts}"
+    -- the specification
+    let first := ents.head?
+    let specPart : String × String :=
+      match first with
+      | none => ("n/a", "-")
+      | some d0 =>
+        match rewriteKey cfg d0.e.key with
+        | none => ("n/a", "-")
+        | some key =>
+          if route cfg key d0.e == .lua then ("n/a", "-")
+          else
+            let single := ents.length = 1
+            let value : Option LValue :=
+              if single then (if trailerOkDrv d0.e.value then logicalPayload drvParams d0.e.value else none)
+              else (chunkPairs drvParams (ents.map (·.e))).bind fun fvs => (Elems.hash fvs).logical drvFt
+            match value with
+            | none => ("n/a", "-")
+            | some v =>
+              let rejected := rej.contains d0.e.type
+              let isOpq := match v with | .opaque _ => true | _ => false
+              if isEmptyValue v || rawNaN drvParams d0.e.value || (isOpq && rejected) || d0.e.value.head? != some d0.e.type
+                  || (single && d0.e.realMemberCount != 0) then ("n/a", "-")
+              else
+                let endNow := srvT0 + (ents.map (·.gap)).foldl (· + ·) 0
+                let startNow := srvT0 + d0.gap
+                let ksStart := ks0.purge startNow
+                let tStart : Target := { srv := { srv with now := startNow }, db := 0, store := { ks := ksStart, scripts := [] } }
+                let exp := expiryOf cfg toolNowNs startNow d0.e.expireAt
+                let (ks1, res) := specOutcome pol ksStart 0 key v exp
+                let tSpec : Target := { srv := { srv with now := endNow }, db := 0, store := { ks := ks1.purge endNow, scripts := [] } }
+                let bigLike := route cfg key d0.e == .big || !single
+                let find :=
+                  if bigLike && bigPolicyCond cfg key tStart then "bigkey-policy"
+                  else if !single && chunkExpiredCond exp endNow then "chunked-expired"
+                  else "-"
+                (s!"{resName res}:{showKs tSpec keys}", find)
+    s!"{modelPart} SPEC={specPart.1} FIND={specPart.2}"
+
+def handle (line : String) : String :=
+  match line.splitOn " " with
+  | ["cmpver", a, b, lv] =>
+    match compareVersion true (hexD a) (hexD b) (intD lv) with
+    | some r => toString r
+    | none => "panic"
+  | "r" :: toks => handleRestore toks
+  | _ => "badcase"
+
 end RSVerif.Drive.C02
